@@ -89,3 +89,15 @@ func mustUnmarshal(t *testing.T, s Saved, dst interface{}) {
 		t.Fatalf("saved case %s: %v", s.Note, err)
 	}
 }
+
+// journal records the case about to run, so that if the process dies (a panic outside any handler)
+// the driver still has a replayable case.
+func journal(prop string, c interface{}) {
+	out := os.Getenv("VERIF_FAIL_OUT")
+	if out == "" {
+		return
+	}
+	raw, _ := json.Marshal(c)
+	b, _ := json.Marshal(Saved{Property: prop, Kind: "journal", Signature: prop + ":process-died", Message: "the test process died while running this case", Case: raw})
+	_ = os.WriteFile(out+".journal", b, 0o644)
+}
